@@ -4,6 +4,7 @@ import numpy as np
 from vf import gen
 
 HOMOG = gen.HOMOG_KINDS
+EXTRA_HOMOG = ["IntAffine", "IntHomogeneous", "IntSimilarity", "MirrorRotation"]     # hostile but legal representations
 ALL_KINDS_2D = HOMOG + ["TransformChain", "ThinPlateSplines", "PiecewiseAffine", "PythonPWA", "WithDims"]
 ALL_KINDS_3D = HOMOG + ["TransformChain", "WithDims"]
 
